@@ -1,0 +1,14 @@
+//go:build verif
+
+package tree
+
+// VerifInCommit, when set, is called by mutableTree.Commit after every module has written its changes to the tree
+// and before the new version is saved and handed to the modules (SetImmutableTree). The runtime-monitoring harness
+// uses it to place a read-only client deterministically inside that window. Build tag verif only.
+var VerifInCommit func()
+
+func verifInCommit() {
+	if VerifInCommit != nil {
+		VerifInCommit()
+	}
+}
